@@ -599,6 +599,26 @@ func refSigValid(chainID string, c *core.Commit, idx int, pub ed25519.PubKey, di
 	return okTM && okStd
 }
 
+// refSignedBy is the most permissive reading of "this validator's voting power is carried by the
+// commit": some signature flagged "commit" verifies under the validator's key over that
+// signature's canonical vote. The signature at the validator's own index (prefer, -1 = none) is
+// tried first; position and address bookkeeping are deliberately not part of the reference.
+func refSignedBy(chainID string, c *core.Commit, prefer int, pub ed25519.PubKey, disagree *int) bool {
+	if prefer >= 0 && prefer < len(c.Signatures) && c.Signatures[prefer].BlockIDFlag == core.BlockIDFlagCommit &&
+		refSigValid(chainID, c, prefer, pub, disagree) {
+		return true
+	}
+	for i := range c.Signatures {
+		if i == prefer || c.Signatures[i].BlockIDFlag != core.BlockIDFlagCommit {
+			continue
+		}
+		if refSigValid(chainID, c, i, pub, nil) {
+			return true
+		}
+	}
+	return false
+}
+
 // refCheck evaluates the reference conditions on the header as given.
 func refCheck(h *header.ExtendedHeader) c16Ref {
 	var r c16Ref
@@ -619,14 +639,11 @@ func refCheck(h *header.ExtendedHeader) c16Ref {
 				continue
 			}
 			r.total += v.VotingPower
-			if i >= len(h.Commit.Signatures) || h.Commit.Signatures[i].BlockIDFlag != core.BlockIDFlagCommit {
-				continue
-			}
 			pk, ok := v.PubKey.(ed25519.PubKey)
-			if !ok {
+			if !ok || v.VotingPower <= 0 {
 				continue
 			}
-			if refSigValid(h.RawHeader.ChainID, h.Commit, i, pk, &r.sigDisagree) && v.VotingPower > 0 {
+			if refSignedBy(h.RawHeader.ChainID, h.Commit, i, pk, &r.sigDisagree) {
 				r.tally += v.VotingPower
 			}
 		}
@@ -636,31 +653,19 @@ func refCheck(h *header.ExtendedHeader) c16Ref {
 	return r
 }
 
-// refTrustedTally: voting power of validators of the trusted set (looked up by address, each
-// counted once) whose key verifies a "commit" signature of the untrusted commit, under the
-// trusted chain id; and the trusted total.
+// refTrustedTally: voting power of the validators of the trusted set whose key verifies some
+// "commit" signature of the untrusted commit under the trusted chain id; and the trusted total.
 func refTrustedTally(trusted, untrusted *header.ExtendedHeader) (tally, total int64) {
-	seen := make([]bool, len(trusted.ValidatorSet.Validators))
 	for _, v := range trusted.ValidatorSet.Validators {
 		total += v.VotingPower
 	}
 	if untrusted.Commit == nil {
 		return 0, total
 	}
-	for i, s := range untrusted.Commit.Signatures {
-		if s.BlockIDFlag != core.BlockIDFlagCommit {
-			continue
-		}
-		for j, v := range trusted.ValidatorSet.Validators {
-			if seen[j] || !bytes.Equal(v.Address, s.ValidatorAddress) {
-				continue
-			}
-			pk, ok := v.PubKey.(ed25519.PubKey)
-			if ok && refSigValid(trusted.RawHeader.ChainID, untrusted.Commit, i, pk, nil) {
-				seen[j] = true
-				tally += v.VotingPower
-			}
-			break
+	for _, v := range trusted.ValidatorSet.Validators {
+		pk, ok := v.PubKey.(ed25519.PubKey)
+		if ok && v.VotingPower > 0 && refSignedBy(trusted.RawHeader.ChainID, untrusted.Commit, -1, pk, nil) {
+			tally += v.VotingPower
 		}
 	}
 	return tally, total
